@@ -216,4 +216,26 @@ theorem C11_wiring2 :
     Sso.Generated.skel_sso_UserGroups =
       ["call:Add", "call:Add", "call:Join", "call:Add", "call:String", "call:Encode", "call:Sprintf", "call:newRequest", "if{", "return", "}", "call:Set", "call:Set", "call:Do", "if{", "return", "}", "call:ReadAll", "call:Close", "if{", "return", "}", "if{", "call:isProviderUnavailable", "if{", "return", "}", "call:String", "call:Errorf", "return", "}", "call:Unmarshal", "if{", "return", "}", "return"] := by decide
 
+/-- **Removing address rules never admits anyone new** (and adding one never locks anyone out), as long as no rule is
+(or lower-cases to) the wildcard `*`: for wildcard-free lists the address validator is monotone in its rule list. -/
+theorem C11_address_rules_monotone (lower : Bytes → Bytes) (l' l : List Bytes) (e : Bytes)
+    (hsub : ∀ a ∈ l', a ∈ l) (hstar : star ∉ l.map lower) (h : addrPasses lower l' e = true) :
+    addrPasses lower l e = true := by
+  have hw : l.map lower ≠ [star] := fun c => hstar (c ▸ List.mem_singleton.2 rfl)
+  have hsub' : ∀ x ∈ l'.map lower, x ∈ l.map lower := by
+    intro x hx
+    rcases List.mem_map.1 hx with ⟨a, ha, rfl⟩
+    exact List.mem_map.2 ⟨a, hsub a ha, rfl⟩
+  have hw' : l'.map lower ≠ [star] := fun c => hstar (hsub' _ (c ▸ List.mem_singleton.2 rfl))
+  rw [C11_address_exact lower l' e hw'] at h
+  rw [C11_address_exact lower l e hw]
+  exact ⟨h.1, hsub' _ h.2⟩
+
+/-- …and the guard is needed: next to a second rule the wildcard stops being one, so *adding* a rule to `["*"]` locks
+everybody else out (the code compares the whole list with `["*"]`). -/
+theorem C11_wildcard_not_monotone :
+    addrPasses id [star] [1] = true ∧ addrPasses id [star, [2]] [1] = false := by decide
+
+example : star ∉ [[1],[2]].map id ∧ addrPasses id [[1]] [1] = true := by decide
+
 end Sso.Validators
